@@ -358,6 +358,31 @@ def must_call_on_ok(facts, b, flow_of, target, option_field, depth=0):
             if ok2:
                 through.append(bb)
                 via.append(cn.split("::")[-1])
+    # `self.type_checker.as_mut().map(|tc| tc.unregister_node(n)).transpose()?`: the call sits in a closure handed to an Option
+    # combinator applied to the option field itself - with the field taken to be Some the closure runs
+    for bb, t in b.calls():
+        if b.is_cleanup(bb):
+            continue
+        cn = callee_name(t) or ""
+        if not (cn.startswith("std::option::Option") and cn.endswith(("::map", "::and_then", "::map_or", "::map_or_else"))):
+            continue
+        tr = fl.trail(t["args"][0][1]) if t["args"] and t["args"][0][0] != "k" else None
+        recv_ok = bool(tr) and tr[-1] == option_field
+        if not recv_ok and t["args"] and t["args"][0][0] != "k":
+            for o in fl.origins(t["args"][0], (bb, None)):
+                if o[0] == "call" and o[2].endswith(("::as_mut", "::as_ref")):
+                    tr2 = fl.trail(b.term(o[1])["args"][0][1]) if b.term(o[1])["args"][0][0] != "k" else None
+                    recv_ok = recv_ok or (bool(tr2) and tr2[-1] == option_field)
+        if not recv_ok:
+            continue
+        for a in t["args"][1:]:
+            if a[0] == "k":
+                continue
+            cty = b.local_ty(a[1][0])
+            for cb in facts.closures_of(b.root or b.id):
+                if ("closure@%s:%d:" % (cb.file, cb.line)) in cty and any(callee_name(ct) == target for _, ct in cb.calls()):
+                    through.append(bb)
+                    via.append("closure")
     if not through:
         return False, "%s never reaches %s" % (b.id.split("::")[-1], target.split("::")[-1])
     ok = C.must_pass(b, 0, oks, through, removed_edges=removed, after=False)
